@@ -13,6 +13,7 @@ import ast
 import z3
 
 _DT_CACHE = {}
+STRLIKE = set()   # names of opaque sorts that stand for python strings used only as keys: str(x) is x, isinstance(x, str)
 
 
 class T:
@@ -81,7 +82,19 @@ class _TNone(T):
         return VNone()
 
 
+class _TPath(T):
+    """pathlib.Path value: abstractly the (normalised) path string `str(p)`; see pyvc/fsmodel.py"""
+    name = "Path"
+
+    def sort(self):
+        return z3.StringSort()
+
+    def wrap(self, e):
+        return VPath(e)
+
+
 TInt, TReal, TBool, TStr, TNone = _TInt(), _TReal(), _TBool(), _TStr(), _TNone()
+TPath = _TPath()
 
 
 class TUn(T):
@@ -171,6 +184,84 @@ class TRec(T):
 
     def wrap(self, e):
         return VRec({fn: ft.wrap(self.acc(fn, e)) for fn, ft in self.fields.items()}, self)
+
+
+class TMutRec(T):
+    """mutable dict-shaped record with a fixed set of string keys, stored *by value* inside containers
+    (z3 datatype).  Exec-mode representation: a VDictRec whose `.mt` is this type; when it is read out of a
+    map / list / another record it carries an `origin` and every mutation is written back (path alias;
+    precondition: records are not shared between containers, at most one live alias per stored record)."""
+
+    def __init__(self, nm, fields):
+        self.nm = nm
+        self.fields = dict(fields)
+        self.name = "MRec_" + nm
+        key = self.name
+        if key not in _DT_CACHE:
+            d = z3.Datatype("MRec_" + _safe(nm))
+            d.declare("mk", *[("mr_%s_%s" % (_safe(nm), _safe(fn)), ft.sort()) for fn, ft in self.fields.items()])
+            _DT_CACHE[key] = d.create()
+        self.dt = _DT_CACHE[key]
+
+    def sort(self):
+        return self.dt
+
+    def acc(self, fname, e):
+        return getattr(self.dt, "mr_%s_%s" % (_safe(self.nm), _safe(fname)))(e)
+
+    def wrap(self, e):
+        d = VDictRec({})
+        d.mt = self
+        for fn, ft in self.fields.items():
+            v = ft.wrap(self.acc(fn, e))
+            if isinstance(v, (VSeq, VMap, VSet, VDictRec)):
+                v.origin = (d, fn)
+            d.fields[fn] = v
+        return d
+
+
+class TDRec(T):
+    """dict-shaped record: a python dict with a fixed set of *possible* string keys, z3-encodable (so it can be a
+    value of a Dict / an element of a List).  `required` keys are always present, `optional` keys carry a presence
+    bit.  Reading it uses the dict protocol (`d.get(k, dflt)`, `d[k]`, `k in d`, isinstance(d, dict));
+    a dict literal whose keys fit is coerced to it when stored into a typed container."""
+
+    def __init__(self, nm, required, optional):
+        self.nm = nm
+        self.required = dict(required)
+        self.optional = dict(optional)
+        self.fields = dict(self.required)
+        self.fields.update(self.optional)
+        self.name = "DRec_" + nm
+        key = self.name
+        if key not in _DT_CACHE:
+            d = z3.Datatype("DRec_" + _safe(nm))
+            fs = [("v_" + fn, ft.sort()) for fn, ft in self.fields.items()]
+            fs += [("has_" + fn, z3.BoolSort()) for fn in self.optional]
+            d.declare("mk", *fs)
+            _DT_CACHE[key] = d.create()
+        self.dt = _DT_CACHE[key]
+
+    def sort(self):
+        return self.dt
+
+    def wrap(self, e):
+        return VDRec(e, self)
+
+    def val(self, fname, e):
+        return getattr(self.dt, "v_" + fname)(e)
+
+    def has(self, fname, e):
+        if fname in self.required:
+            return z3.BoolVal(True)
+        if fname in self.optional:
+            return getattr(self.dt, "has_" + fname)(e)
+        return z3.BoolVal(False)
+
+    def mk(self, vals, present):
+        """vals: {field: z3 expr (for every field)}, present: {optional field: z3 Bool}"""
+        args = [vals[fn] for fn in self.fields] + [present[fn] for fn in self.optional]
+        return self.dt.mk(*args)
 
 
 class TList(T):
@@ -307,6 +398,14 @@ class VUn(V):
         self.t = t
 
 
+class VPath(V):
+    """pathlib.Path: immutable; `e` is the z3 string str(p) (a fixpoint of path normalisation)"""
+    t = TPath
+
+    def __init__(self, e):
+        self.e = z3.StringVal(e) if isinstance(e, str) else e
+
+
 class VNone(V):
     t = TNone
     e = None
@@ -337,10 +436,35 @@ class VTuple(V):
         return self._t
 
 
+class VPyList(VTuple):
+    """a python *list* of statically known length whose elements have no symbolic encoding (dict literals, heap
+    objects), e.g. `[entry]`.  Behaves like a tuple for len / indexing / iteration / truthiness; it reports itself as
+    `list` to isinstance, and every mutating method is `unsupported` (never silently wrong)."""
+    pylist = True
+
+
 class VRec(V):
     def __init__(self, fields, t):
         self.fields = dict(fields)
         self.t = t
+
+
+class VDRec(V):
+    """value of a dict-shaped record type (immutable value semantics, like VRec)"""
+
+    # `owner` = (env, name) of the only local that refers to this freshly copied dict (`x = dict(rec)`): item stores
+    # through that name are modelled as a functional update + rebinding; any other store is unsupported
+    owner = None
+
+    def __init__(self, e, t):
+        self.e = e
+        self.t = t
+
+    def field(self, fname):
+        return self.t.fields[fname].wrap(self.t.val(fname, self.e))
+
+    def has(self, fname):
+        return self.t.has(fname, self.e)
 
 
 class VSeq(V):
@@ -353,7 +477,7 @@ class VSeq(V):
 
     def get(self, i):
         v = self.et.wrap(z3.Select(self.arr, i))
-        if isinstance(v, (VSeq, VMap, VSet)):
+        if isinstance(v, (VSeq, VMap, VSet, VDictRec)):
             v.origin = (self, i)
         return v
 
@@ -374,7 +498,7 @@ class VMap(V):
 
     def get(self, k):
         v = self.vt.wrap(z3.Select(self.val, k))
-        if isinstance(v, (VSeq, VMap, VSet)):
+        if isinstance(v, (VSeq, VMap, VSet, VDictRec)):
             v.origin = (self, k)
         return v
 
@@ -410,6 +534,23 @@ class VDictRec(V):
         self.fields = dict(fields)
 
     t = None
+    mt = None   # TMutRec when this dict is (an alias of) a by-value record stored in a container
+
+    def store_back(self, key, child):
+        self.fields[key] = child
+        self.writeback()
+
+    def adopt(self, mt):
+        """this literal dict has just been stored in a container of records of type mt: from now on it is the
+        alias of the stored record (python reference semantics of `m[k] = rec; rec[f] = ...`)"""
+        self.mt = mt
+        for fn, ft in mt.fields.items():
+            ch = self.fields.get(fn)
+            if isinstance(ch, VDictRec) and isinstance(ft, TMutRec):
+                ch.origin = (self, fn)
+                ch.adopt(ft)
+            elif isinstance(ch, (VSeq, VMap, VSet)):
+                ch.origin = (self, fn)
 
 
 class VFunc(V):
@@ -463,6 +604,13 @@ class VOpaque(V):
         self.tag = tag
 
 
+class VNaN(V):
+    """float('nan'): floats are mathematical reals in this engine (A-REAL); this is the single non-finite float value it
+    can represent, and only as a python-side constant (spec constructor `nan()`): every ordering comparison and ==
+    with it is False, math.isfinite is False, float()/abs() keep it.  Arithmetic on it is not modelled."""
+    t = None
+
+
 class VUndef(V):
     """spec mode only: the value of a partial operation outside its domain (e.g. None[0]).
     Any predicate over it is an unconstrained boolean, so a clause that depends on it cannot be proved."""
@@ -474,9 +622,24 @@ def typeof(v):
         return v.t
     if type(v).__name__ == "VDyn":
         return v.t
-    if isinstance(v, (VUn, VOpt, VRec, VTuple, VSeq, VMap, VSet)):
+    if isinstance(v, (VUn, VOpt, VRec, VTuple, VSeq, VMap, VSet, VPath, VDRec)):
         return v.t
+    if isinstance(v, VDictRec) and v.mt is not None:
+        return v.mt
     raise TypeError("value of %s has no encodable type" % type(v).__name__)
+
+
+def _eta(dt, parts):
+    """mk(acc1(x), acc2(x), ...) == x : keeps quantified container variables as plain variables (triggers)"""
+    x = None
+    for acc, e in parts:
+        if not (z3.is_app(e) and e.num_args() == 1 and e.decl().eq(getattr(dt, acc))):
+            return None
+        if x is None:
+            x = e.arg(0)
+        elif not x.eq(e.arg(0)):
+            return None
+    return x
 
 
 def unwrap(v, t):
@@ -487,6 +650,12 @@ def unwrap(v, t):
     if t.name == "DKey":
         from .dyn import key_code
         return key_code(v)
+    if getattr(t, "coerce_in", None) is not None:
+        # dynamically typed target (Json): python values are injected
+        r = t.coerce_in(v)
+        if r is not None:
+            return r
+        raise TypeError("cannot encode %s as %s" % (type(v).__name__, t))
     if isinstance(t, TOpt):
         if isinstance(v, VNone):
             return t.none()
@@ -513,32 +682,150 @@ def unwrap(v, t):
         return v.e
     if isinstance(t, _TNone):
         return z3.BoolVal(True)
+    if isinstance(t, _TPath) and isinstance(v, VPath):
+        return v.e
     if isinstance(t, TUn) and isinstance(v, VUn) and v.t == t:
         return v.e
     if isinstance(t, TTuple) and isinstance(v, VTuple):
         if len(v.items) != len(t.elems):
             raise TypeError("tuple arity")
-        return t.dt.mk(*[unwrap(x, et) for x, et in zip(v.items, t.elems)])
+        parts = [unwrap(x, et) for x, et in zip(v.items, t.elems)]
+        # eta: mk(f0(e), f1(e), ...) is e itself (keeps a quantified tuple variable visible to the triggers)
+        try:
+            base = None
+            for i, p in enumerate(parts):
+                if not (z3.is_app(p) and p.num_args() == 1 and p.decl().eq(getattr(t.dt, "f%d" % i))):
+                    base = None
+                    break
+                if base is None:
+                    base = p.arg(0)
+                elif not base.eq(p.arg(0)):
+                    base = None
+                    break
+            if base is not None and parts and base.sort().eq(t.dt):
+                return base
+        except z3.Z3Exception:
+            pass
+        return t.dt.mk(*parts)
     if isinstance(t, TRec) and isinstance(v, VRec):
         if v.t.nm != t.nm:
             raise TypeError("record mismatch %s vs %s" % (v.t, t))
         return t.dt.mk(*[unwrap(v.fields[fn], ft) for fn, ft in t.fields.items()])
+    if isinstance(t, TRec) and getattr(t, "dictshape", False) and isinstance(v, VDictRec):
+        # a dict literal with constant string keys stored where a dict-shaped record is expected
+        extra = [k for k in v.fields if k not in t.fields]
+        missing = [k for k in t.fields if k not in v.fields and k not in t.optkeys]
+        if extra or missing:
+            raise TypeError("dict literal does not have the shape of %s (extra %s, missing %s)" % (t.nm, extra, missing))
+        return t.dt.mk(*[unwrap(v.fields[fn], ft) if fn in v.fields else ft.none() for fn, ft in t.fields.items()])
+    if isinstance(t, TMutRec) and isinstance(v, VDictRec):
+        if set(v.fields) != set(t.fields):
+            raise TypeError("dict with keys %s is not a %s record" % (sorted(v.fields), t.nm))
+        es = [unwrap(v.fields[fn], ft) for fn, ft in t.fields.items()]
+        # eta-reduction: mk(acc_1(x), ..., acc_n(x)) is x (an unmodified record read out of a container)
+        x = None
+        for i, e in enumerate(es):
+            if not (z3.is_app(e) and e.num_args() == 1 and e.decl().eq(t.dt.accessor(0, i))):
+                x = None
+                break
+            if x is None:
+                x = e.arg(0)
+            elif not x.eq(e.arg(0)):
+                x = None
+                break
+        if x is not None and x.sort().eq(t.dt):
+            return x
+        return t.dt.mk(*es)
+    if isinstance(t, TMap) and isinstance(v, VDictRec) and not v.fields and not t.ordered:
+        dflt = z3.Const("dflt_" + "".join(c if c.isalnum() else "_" for c in t.v.name), t.v.sort())
+        return t.dt.mk(z3.K(t.k.sort(), z3.BoolVal(False)), z3.K(t.k.sort(), dflt), z3.IntVal(0))
+    if isinstance(t, TDRec):
+        if isinstance(v, VDRec) and v.t == t:
+            v.owner = None      # the dict object is now shared with a container: no more in-place updates modelled
+            return v.e
+        if isinstance(v, VDictRec):
+            return drec_of_literal(v, t)
+        raise TypeError("cannot encode %s as %s" % (type(v).__name__, t))
     if isinstance(t, TList) and type(v).__name__ == "VEmptyList":
         dflt = z3.Const("dflt_" + "".join(c if c.isalnum() else "_" for c in t.elem.name), t.elem.sort())
         return t.dt.mk(z3.K(z3.IntSort(), dflt), z3.IntVal(0))
     if isinstance(t, TList) and isinstance(v, VSeq):
         if v.et != t.elem:
             raise TypeError("list elem mismatch %s vs %s" % (v.et, t.elem))
+        x = _eta(t.dt, [("arr", v.arr), ("n", v.n)])
+        if x is not None:
+            return x
         return t.dt.mk(v.arr, v.n)
     if isinstance(t, TMap) and isinstance(v, VMap):
         if v.kt != t.k or v.vt != t.v:
             raise TypeError("map mismatch")
         if t.ordered:
             return t.dt.mk(v.dom, v.val, v.card, v.order.arr)
+        x = _eta(t.dt, [("dom", v.dom), ("val", v.val), ("card", v.card)])
+        if x is not None:
+            return x
         return t.dt.mk(v.dom, v.val, v.card)
     if isinstance(t, TSet) and isinstance(v, VSet):
-        return t.dt.mk(v.dom, v.card)
+        return _eta2(t.dt, [v.dom, v.card])
     raise TypeError("cannot encode %s as %s" % (type(v).__name__, t))
+
+
+def future_type(rt):
+    """concurrent.futures.Future as a value: the outcome of the submitted call (see externals._tpe_submit)"""
+    return TRec("Future_" + _safe(rt.name), {"raised": TBool, "value": rt, "exc_type": TStr, "exc_msg": TStr})
+
+
+def _eta2(dt, es):
+    """mk(acc_0(x), ..., acc_n(x)) is x: an unmodified container value read out of another container keeps its
+    original term (equalities between stored values stay syntactic)"""
+    x = None
+    for i, e in enumerate(es):
+        if not (z3.is_app(e) and e.num_args() == 1 and e.decl().eq(dt.accessor(0, i))):
+            return dt.mk(*es)
+        if x is None:
+            x = e.arg(0)
+        elif not x.eq(e.arg(0)):
+            return dt.mk(*es)
+    if x is not None and x.sort().eq(dt):
+        return x
+    return dt.mk(*es)
+def drec_shape_ok(v, t):
+    """does the dict literal have exactly the required keys plus some of the optional ones?"""
+    keys = set(v.fields)
+    return set(t.required) <= keys and keys <= set(t.fields)
+
+
+def _empty_of(ft):
+    """z3 value used for `{}` / `[]` literals and for absent optional fields"""
+    if isinstance(ft, TMap):
+        dflt = z3.Const("dflt_" + _safe(ft.v.name), ft.v.sort())
+        args = [z3.K(ft.k.sort(), z3.BoolVal(False)), z3.K(ft.k.sort(), dflt), z3.IntVal(0)]
+        if ft.ordered:
+            args.append(z3.K(z3.IntSort(), z3.Const("dflt_" + _safe(ft.k.name), ft.k.sort())))
+        return ft.dt.mk(*args)
+    if isinstance(ft, TList):
+        return ft.dt.mk(z3.K(z3.IntSort(), z3.Const("dflt_" + _safe(ft.elem.name), ft.elem.sort())), z3.IntVal(0))
+    return z3.Const("dflt_" + _safe(ft.name), ft.sort())
+
+
+def drec_of_literal(v, t):
+    if not drec_shape_ok(v, t):
+        raise TypeError("dict literal with keys %s does not fit %s" % (sorted(v.fields), t.nm))
+    vals, present = {}, {}
+    for fn, ft in t.fields.items():
+        if fn in v.fields:
+            x = v.fields[fn]
+            if isinstance(x, VDictRec) and not x.fields and isinstance(ft, TMap):
+                vals[fn] = _empty_of(ft)
+            elif type(x).__name__ == "VEmptyList" and isinstance(ft, TList):
+                vals[fn] = _empty_of(ft)
+            else:
+                vals[fn] = unwrap(x, ft)
+        else:
+            vals[fn] = _empty_of(ft)
+        if fn in t.optional:
+            present[fn] = z3.BoolVal(fn in v.fields)
+    return t.mk(vals, present)
 
 
 # ---------------------------------------------------------------- type parsing
@@ -546,7 +833,7 @@ def unwrap(v, t):
 class TypeEnv:
     def __init__(self):
         self.named = {"int": TInt, "float": TReal, "Real": TReal, "bool": TBool, "str": TStr,
-                      "None": TNone}
+                      "None": TNone, "Path": TPath}
         from .dyn import TDyn
         self.named["Dyn"] = TDyn
 
@@ -576,6 +863,11 @@ class TypeEnv:
                 return TList(self._p(args[0]), "deque")
             if head in ("Dict", "dict", "Map"):
                 return TMap(self._p(args[0]), self._p(args[1]))
+            if head == "DefaultDict":
+                # collections.defaultdict(float|int): a dict whose missing keys read as 0 (and are inserted by the read)
+                t = TMap(self._p(args[0]), self._p(args[1]))
+                t.default_zero = True
+                return t
             if head in ("OrderedDict", "OMap"):
                 return TMap(self._p(args[0]), self._p(args[1]), ordered=True)
             if head in ("Set", "set"):
@@ -584,4 +876,6 @@ class TypeEnv:
                 return TTuple([self._p(a) for a in args])
             if head == "Un":
                 return TUn(args[0].id)
+            if head == "Future":
+                return future_type(self._p(args[0]))
         raise KeyError("cannot parse type %s" % ast.dump(n))
